@@ -311,7 +311,12 @@ def _mon_vbsreader(m, max_len):
 # ------------------------------------------------------------------------------------------------------- C07 / C08 / C02
 def _mon_codec(iso, packaged):
     def loads(orig):
-        def loads(b, encoding=None, iso_config=None, hex_bitmap=False):
+        def loads(b, encoding=None, iso_config=None, hex_bitmap=False, *more, **extension):
+            if more or extension:
+                # an argument this monitor does not know (an extension of the signature): the call is passed on as it is and
+                # not judged - the reference decoder does not know what the extension means
+                counters['C07:loads calls with extension arguments (not judged)'] += 1
+                return orig(b, encoding, iso_config, hex_bitmap, *more, **extension)
             if _busy[0]:
                 return orig(b, encoding=encoding, iso_config=iso_config, hex_bitmap=hex_bitmap)
             enc = encoding or 'latin_1'
@@ -342,7 +347,10 @@ def _mon_codec(iso, packaged):
         return loads
 
     def dumps(orig):
-        def dumps(obj, encoding=None, iso_config=None, hex_bitmap=False):
+        def dumps(obj, encoding=None, iso_config=None, hex_bitmap=False, *more, **extension):
+            if more or extension:
+                counters['C02:dumps calls with extension arguments (not judged)'] += 1
+                return orig(obj, encoding, iso_config, hex_bitmap, *more, **extension)
             if _busy[0] or 'C02' not in _enabled:
                 return orig(obj, encoding=encoding, iso_config=iso_config, hex_bitmap=hex_bitmap)
             enc = encoding or 'latin_1'
